@@ -387,6 +387,65 @@ def suite_gen(which: set[str]):
                             res.disagreement = {"what": "overwrite did not leave an empty directory", "model": "-", "impl": str(sorted(x.name for x in pth.iterdir()) if pth.is_dir() else "gone")}
                 finally:
                     _shutil.rmtree(base, ignore_errors=True)
+            if "node" in which:
+                # real _BFNode objects holding real sub-clusters; sub-clusters as handles (identity -> number), buffer rows as
+                # centroid tokens (bytes -> number); the node's two list operations and the packed_centroids view
+                import bblean.bitbirch as BBm
+                for _ in range(N):
+                    bf = rng.choice([2, 3, 5, 8])
+                    nf = rng.choice([8, 12, 16, 33])
+                    node = BBm._BFNode(bf, nf)
+                    node._packed_centroids_buf[:] = np.frombuffer(rng.randbytes(node._packed_centroids_buf.size), dtype=np.uint8).reshape(node._packed_centroids_buf.shape)
+                    hid: dict = {}
+                    tokens: dict = {}
+
+                    def handle(sc):
+                        return hid.setdefault(id(sc), len(hid) + 1)
+
+                    def token(row):
+                        return tokens.setdefault(bytes(np.asarray(row, dtype=np.uint8).tobytes()), len(tokens) + 1)
+
+                    def mk_sub():
+                        row = np.asarray([rng.random() < 0.5 for _ in range(nf)], dtype=np.uint8)
+                        from bblean.fingerprints import pack_fingerprints as _pk
+                        sc = BBm._BFSubcluster(linear_sum=row, mol_indices=[rng.randint(0, 99)])
+                        handle(sc)
+                        return sc
+                    keep = []
+
+                    def state_of():
+                        return ([handle(x) for x in node._subclusters], [token(r) for r in node._packed_centroids_buf])
+                    k0 = rng.randint(0, bf)
+                    for _k in range(k0):
+                        sc = mk_sub()
+                        keep.append(sc)
+                        before = state_of()
+                        node.append_subcluster(sc)
+                        compare("_BFNode_append_subcluster", [before[0], before[1], handle(sc), token(sc.packed_centroid)], state_of())
+                        compare("_BFNode_packed_centroids", list(state_of()), [token(r) for r in node.packed_centroids])
+                    if k0 >= 1:
+                        victim = rng.choice(node._subclusters) if rng.random() < 0.9 else mk_sub()
+                        n1, n2 = mk_sub(), mk_sub()
+                        keep += [victim, n1, n2]
+                        before = state_of()
+                        try:
+                            node.update_split_subclusters(victim, n1, n2)
+                            real = state_of()
+                        except ValueError:
+                            real = "ERR:ValueError"
+                        args = [before[0], before[1], handle(victim), handle(n1), handle(n2), token(n1.packed_centroid), token(n2.packed_centroid)]
+                        if real == "ERR:ValueError":
+                            m = d.cmd("GEN _BFNode_update_split_subclusters " + " ".join(pv(a) for a in args))
+                            res.evaluations += 1
+                            cnt["_BFNode_split_refused"] = cnt.get("_BFNode_split_refused", 0) + 1
+                            if "err:ValueError" not in m and res.disagreement is None:
+                                res.disagreement = {"what": "update_split_subclusters of an absent entry", "model": m[:200], "impl": "ValueError"}
+                        else:
+                            compare("_BFNode_update_split_subclusters", args, real)
+                            # alignment: the valid rows are the centroids of the entries
+                            if any(bytes(r.tobytes()) != bytes(x.packed_centroid.tobytes()) for r, x in zip(node.packed_centroids, node._subclusters)) \
+                                    and res.disagreement is None:
+                                res.disagreement = {"what": "cache rows differ from the entries' centroids after update_split_subclusters", "model": "-", "impl": "-"}
             if "monitor" in which:
                 # the daemon's loop, run for real (real files) with a scripted process tree, clock and sleep; every iteration's
                 # file effects, recorded at the module's own `open` / `os` / `time` names, against the generated loop body
